@@ -54,8 +54,8 @@ META = {
         "(incl. iter operands die at the loop), loop-carried groups do not overlap, the induction variable / live-ins / "
         "bounds are not group members (every yield operand is a value of its own; excludes the open finding C19-kf-3, "
         "`yield %iv`, C19_loop_yield_iv_refuted), values tied into one register are never live together. Building "
-        "blocks: C19_loop_groups/reserve/rebase/body_partial. Not proved: loops with pre-assigned registers, no-clobber and "
-        "semantics for loops, two-level nests. "
+        "blocks: C19_loop_groups/reserve/rebase/body_partial; C19_no_clobber_loop: no result of an operation before, inside or after the loop (nor the header write of the induction variable) is written over a live value; C19_loop_hypotheses_satisfiable: all hypotheses hold on a loop carrying a value. C19_semantics_loop: for EVERY trip count the lowered loop on the register machine (no moves for carried values) and the SSA semantics of riscv_scf.for agree on everything live after the loop (results included), by induction on the trip count over C19_semantics_loop_iteration; C19_loop_live_ins_complete. Not proved: loops with pre-assigned registers, "
+        "theorems for two-level nests (modelled and tied by correspondence/oracle only). "
         "Tie: the model is run next to the real "
         "riscv/x86 allocate_func on generated functions and the complete value->register map and final RegisterStack are "
         "compared exactly; an independent liveness/interference checker and register-machine simulation judge the real "
@@ -71,7 +71,7 @@ META = {
         "two in/out slots of one operation; the legalisation passes (x86-regalloc-legalize / verify-liveness) that establish "
         "the in/out contract."),
 }
-COQ_TARGETS = ["C19/Enc.vo", "C19/ProofsSem.vo", "C19/ProofsFunc.vo", "C19/ProofsRefute.vo", "C19/ProofsLoop.vo", "C19/ProofsLoop2.vo", "C19/ProofsLoopEx.vo", "Props/C19.vo"]
+COQ_TARGETS = ["C19/Enc.vo", "C19/ProofsSem.vo", "C19/ProofsFunc.vo", "C19/ProofsRefute.vo", "C19/ProofsLoop.vo", "C19/ProofsLoop2.vo", "C19/ProofsLoopEx.vo", "C19/ProofsLoopSem.vo", "Props/C19.vo"]
 REQ = ["C19.Model", "C19.Enc"]
 ASSUMPTIONS = [
     "the input's own register constraints are satisfiable without inserting copies: values it forces into one register "
@@ -895,7 +895,7 @@ def _gen_for(rng, env, visible, nv, dead, bounds=None, nested=None, copy_iters=0
     rng.shuffle(ycand)
     yld = []
     for pos in range(k):
-        if rng.random() < 0.04:
+        if rng.random() < 0.04 and bargs[0] not in yld:      # at most once: a value in two groups is not modelled
             yld.append(bargs[0])               # `yield %iv` (the class of C19-kf-3)
         elif rng.random() < 0.2:
             yld.append(bargs[1 + pos])
